@@ -458,7 +458,7 @@ DerCommon ==
   \cup { <<"LenPlus", a>> : a \in { "1", "200" } }
   \cup { <<"LenMinus", "1">>, <<"LenIndefinite", "-">>, <<"EmptyBody", "-">>, <<"DupNode", "-">>,
          <<"DropNode", "-">>, <<"SwapSiblings", "-">> }
-  \cup { <<"LenHuge", a>> : a \in { "i32max", "u32max", "i64max", "u64max" } }
+  \cup { <<"LenHuge", a>> : a \in { "256m", "i32max", "u32max", "i64max", "u64max" } }
   \cup { <<"LenNonMinimal", a>> : a \in { "long", "pad4" } }
   \cup { <<"Retag", a>> : a \in { "universal", "context", "contextprim", "application", "high", "highhuge" } }
   \cup { <<"ByteNoise", a>> : a \in { "1", "3" } }
@@ -492,12 +492,12 @@ BinOps(t) ==
                     <<"DupNode", "-">>, <<"ByteNoise", "1">> }
     [] t = "fixed" -> { <<"Truncate", "in-body">>, <<"Truncate", "at-end">>, <<"DropNode", "-">>,
                         <<"DupNode", "-">>, <<"ByteNoise", "1">>, <<"ByteNoise", "3">>, <<"ZeroInt", "-">> }
-    [] t = "count" -> { <<"CountHuge", "max">>, <<"CountHuge", "i32max">>, <<"LenPlus", "1">>, <<"LenMinus", "1">>,
+    [] t = "count" -> { <<"CountHuge", "max">>, <<"CountHuge", "i32max">>, <<"CountHuge", "256m">>, <<"LenPlus", "1">>, <<"LenMinus", "1">>,
                         <<"ZeroInt", "-">>, <<"Truncate", "in-body">>, <<"Truncate", "at-end">> }
     [] t \in { "vec", "opaque", "vecder" } ->
          { <<"Truncate", "in-len">>, <<"Truncate", "in-body">>, <<"Truncate", "at-end">>,
            <<"LenPlus", "1">>, <<"LenPlus", "200">>, <<"LenMinus", "1">>, <<"CountHuge", "max">>,
-           <<"CountHuge", "i32max">>, <<"EmptyBody", "-">>, <<"DropNode", "-">>, <<"DupNode", "-">>,
+           <<"CountHuge", "i32max">>, <<"CountHuge", "256m">>, <<"EmptyBody", "-">>, <<"DropNode", "-">>, <<"DupNode", "-">>,
            <<"SwapSiblings", "-">>, <<"ByteNoise", "1">>, <<"ByteNoise", "3">>, <<"Grow", "64k">> }
          \cup (IF t = "opaque" THEN { <<"InnerLen", a>> : a \in { "1:+1", "1:-1", "1:max", "2:+1", "2:-1", "2:max",
                                                                "2:zero" } } ELSE {})
@@ -619,7 +619,7 @@ Totality(obs, len) ==
    NarrowErr: a DER artifact is one TLV; after cutting cut > 0 bytes off the end of an
    otherwise consistently encoded artifact the outermost length exceeds the data, so
    a length-checking decoder (anchors: parseTagAndLength / invalidLength, String.read)
-   must report an error.  Only for DER kinds, native entry points, programs whose
+   must report an error (len is the number of bytes left).  Only for DER kinds, native entry points, programs whose
    last operator is Truncate and that contain no length-changing operator.        *)
 LengthChanging(m) == Family(m.op) \in { "length", "count", "inner", "nest" }
                      \/ m.op \in { "Retag", "ByteNoise", "KeyShape", "DropNode", "EmptyBody", "DupNode" }
@@ -627,14 +627,15 @@ LengthChanging(m) == Family(m.op) \in { "length", "count", "inner", "nest" }
 NarrowOK(k, prog, ep, seedclass) ==
   prog = <<>> /\ seedclass = "gen" /\ ep \in Native[k]
 
-NarrowErr(k, prog, ep, cut) ==
+NarrowErr(k, prog, ep, cut, len) ==
   /\ Enc[k] = "der" /\ ep \in Native[k] /\ Len(prog) >= 1 /\ cut > 0
+  /\ len > 0           \* the empty input is not a truncated TLV (ParseCertificates: no certificates)
   /\ prog[Len(prog)].op = "Truncate"
   /\ \A i \in 1..(Len(prog) - 1) : ~LengthChanging(prog[i])
 
-Allowed(k, prog, ep, seedclass, cut) ==
+Allowed(k, prog, ep, seedclass, cut, len) ==
   IF NarrowOK(k, prog, ep, seedclass) THEN { "ok" }
-  ELSE IF NarrowErr(k, prog, ep, cut) THEN { "err" }
+  ELSE IF NarrowErr(k, prog, ep, cut, len) THEN { "err" }
   ELSE Outcomes
 
 =============================================================================
